@@ -347,6 +347,9 @@ def render_class(cd: Dict[str, Any], prog: Dict[str, Any]) -> List[str]:
                 body.append(f"    {f['n']}: {te}")
         if cd.get("dep_req"):
             body.append(f"    _dep = dependent_required({cd['dep_req']})")
+        for v in cd.get("validators") or []:
+            body += ["    @validator", f"    def {v['name']}(self):", f"        if self.{v['field']} == {v['bad']!r}:",
+                     f"            raise ValidationError({v['name']!r})"]
         if initvars or cd.get("post_init"):
             body.append("    def __post_init__(self" + "".join(", " + v for v in initvars) + "):")
             for f in cd["fields"]:
